@@ -1,12 +1,112 @@
 /-
   Line-protocol driver: one record per input line, one canonical answer line per record.
 -/
-import PasfmtModel.Model.Lexer
+import PasfmtModel.Model.Pipeline
 
 namespace Pasfmt
 
 def showRawToks (toks : List RawTok) : String :=
   " ".intercalate (toks.map fun t => s!"{t.ws.length}:{t.content.length}:{t.kind.toRust}")
+
+def showList (xs : List String) (sep : String := " ") : String :=
+  if xs.isEmpty then "-" else sep.intercalate xs
+
+def parseList (s : String) (sep : String := " ") : List String :=
+  if s == "-" then [] else s.splitOn sep
+
+def parseCfg (s : String) : Option Config := do
+  let mut c := Config.default
+  for kv in s.splitOn "," do
+    match kv.splitOn "=" with
+    | [k, v] =>
+      let n ← v.toNat?
+      c := match k with
+        | "w" => { c with wrapColumn := n }
+        | "b" => { c with beginAlwaysWrap := n == 1 }
+        | "m" => { c with fmtMls := n == 1 }
+        | "t" => { c with useTabs := n == 1 }
+        | "tw" => { c with tabWidth := n }
+        | "ci" => { c with contIndents := n }
+        | "crlf" => { c with crlf := n == 1 }
+        | _ => c
+    | _ => none
+  return c
+
+def parseLine (s : String) : Option Line :=
+  match s.splitOn ":" with
+  | [ty, lvl, par, toks] => do
+    let ty ← LogicalLineType.ofRust ty
+    let lvl ← lvl.toNat?
+    let par ← (if par == "-" then some none else
+      match par.splitOn "." with
+      | [a, b] => do
+        let a ← a.toNat?
+        let b ← b.toNat?
+        pure (some { lineIndex := a, tokenIndex := b : LineParent })
+      | _ => none)
+    let toks ← (parseList toks ",").mapM String.toNat?
+    pure { parent := par, level := lvl, tokens := toks, ltype := ty }
+  | _ => none
+
+def showLine (l : Line) : String :=
+  let par := match l.parent with | none => "-" | some p => s!"{p.lineIndex}.{p.tokenIndex}"
+  s!"{l.ltype.toRust}:{l.level}:{par}:{showList (l.tokens.map toString) ","}"
+
+def parseLines (s : String) : Option (List Line) := (parseList s ";").mapM parseLine
+
+def showLines (ls : List Line) : String := showList (ls.map showLine) ";"
+
+def parseFmt (s : String) : Option FmtData :=
+  match s.splitOn "." with
+  | [a, b, c, d, e] => do
+    let a ← a.toNat?
+    let b ← b.toNat?
+    let c ← c.toNat?
+    let d ← d.toNat?
+    let e ← e.toNat?
+    pure { ignored := e == 1, nl := a, ind := b, cont := c, sp := d }
+  | _ => none
+
+def showFmt (f : FmtData) : String :=
+  s!"{f.nl}.{f.ind}.{f.cont}.{f.sp}.{if f.ignored then 1 else 0}"
+
+def parseChanged (s : String) : Option (List (Nat × Bytes)) :=
+  (parseList s).mapM fun e =>
+    match e.splitOn ":" with
+    | [i, h] => do
+      let i ← i.toNat?
+      let b ← ofHex h
+      pure (i, b)
+    | _ => none
+
+def showChanged (before after : List Bytes) : String :=
+  showList (((before.zip after).zipIdx.filter fun ((a, b), _) => a != b).map fun ((_, b), i) => s!"{i}:{toHex b}")
+
+def bool01 (b : Bool) : String := if b then "1" else "0"
+
+/-- the `fmt` stream: whole pipeline with the parser and wrapper outputs taken from the record -/
+def handleFmt (cfgS inpS kindsS linesS postS changedS alnumS : String) : String :=
+  match parseCfg cfgS, ofHex inpS, (parseList kindsS).mapM TokenType.ofRust, parseLines linesS,
+        (parseList postS).mapM parseFmt, parseChanged changedS, (parseList alnumS).mapM ofHex with
+  | some cfg, some inp, some kinds, some lines, some post, some changed, some alnum =>
+    match lex inp with
+    | none => "model-none"
+    | some raw =>
+      let O : Oracles :=
+        { parser := fun _ => { kinds := kinds, lines := lines },
+          wrap := fun _ _ ft =>
+            (ft.zip post).zipIdx.map fun ((t, f), i) =>
+              match changed.lookup i with
+              | some c => { tok := { t.tok with ws := [], content := c }, fmt := f }
+              | none => { t with fmt := f },
+          alnum := fun b => alnum.contains b }
+      let (marks, lines', ft1) := preWrap O raw
+      let out := formatTokens cfg O raw
+      let marksS := showList ((marks.zipIdx.filter (·.1)).map fun (_, i) => toString i)
+      let pre := showList (ft1.map fun t => showFmt t.fmt)
+      let prec := showChanged (raw.map (·.content)) (ft1.map (·.tok.content))
+      s!"marks={marksS}\tlv={showLines lines'}\tpre={pre}\tprec={prec}\tkr=1\twc=1\tout={toHex out}"
+  | _, _, _, _, _, _, _ => "bad-record"
 
 def handleLine (line : String) : String :=
   match line.splitOn "\t" with
@@ -24,6 +124,7 @@ def handleLine (line : String) : String :=
       match lexWith true inp with
       | none => "model-none"
       | some toks => showRawToks toks
+  | ["fmt", cfg, inp, kinds, lines, post, changed, alnum] => handleFmt cfg inp kinds lines post changed alnum
   | _ => "bad-op"
 
 partial def loop (hin : IO.FS.Stream) (hout : IO.FS.Stream) : IO Unit := do
